@@ -10,7 +10,9 @@ Definition fuel : nat := 400.
 Notation tb := src_tables.
 Notation top := (DPlain false).
 
-Inductive source := SDirect | SEval.
+(* SEvalB64: an evaluated program that applies fn::fromBase64 - the only way an evaluation result can hold a string that is
+   not valid UTF-8 (recorded finding C18-non-utf8); in a result of any other program such a string is a new failure *)
+Inductive source := SDirect | SEval | SEvalB64.
 
 (* [again]: decoding the same document once more INTO the object just decoded left it unchanged;
    [into_orig]: decoding the document of the original into a copy of the original left it unchanged
@@ -106,7 +108,7 @@ Fixpoint nilify_h (n : nat) (t : gty) (v : gval) {struct n} : gval :=
   end.
 
 Definition in_domain (src : source) (t : gty) (orig : gval) : bool :=
-  match src with SEval => true | SDirect => typed t orig && valid_numbers t orig end.
+  match src with SEval | SEvalB64 => true | SDirect => typed t orig && valid_numbers t orig end.
 
 (* the specification, on the implementation's observations only: the value is serialisable, comes back equal
    (nil vs empty where it matters, json.Number vs float64, exact number text, exact bytes), serialises to the same
@@ -136,8 +138,9 @@ Definition spec_fail (c : case) : bool :=
    the domain ("valid number text"), see [in_domain]. *)
 Definition known (c : case) : bool :=
   match c with
-  | CRound _ t orig _ _ _ _ _ =>
-      (kf_empty_lossy tb fuel top t orig || kf_non_utf8 tb fuel top t orig) && negb (mismatch c)
+  | CRound src t orig _ _ _ _ _ =>
+      (kf_empty_lossy tb fuel top t orig
+       || (kf_non_utf8 tb fuel top t orig && match src with SEval => false | _ => true end)) && negb (mismatch c)
   | _ => false
   end.
 
@@ -232,7 +235,7 @@ Definition dec_opt {A} (f : sexp -> option A) (x : sexp) : option (option A) :=
   end.
 
 Definition dec_src (x : sexp) : option source :=
-  match x with Atom "direct" => Some SDirect | Atom "eval" => Some SEval | _ => None end.
+  match x with Atom "direct" => Some SDirect | Atom "eval" => Some SEval | Atom "evalb64" => Some SEvalB64 | _ => None end.
 
 Definition decode (x : sexp) : option case :=
   match x with
